@@ -3,6 +3,7 @@ package props
 import (
 	"sync"
 	"time"
+	"verif/internal/scen"
 
 	"verif/internal/check"
 	"verif/internal/e1"
@@ -39,6 +40,10 @@ func partGated(c *check.Ctx, a *acc, scenarios []func(*sut.Proc) *e2.Result, rep
 				c.Inconc(res.Inconclusive)
 			}
 			for _, f := range res.Findings {
+				if scen.DefaultFlags != "" {
+					f.Props = append(f.Props, "C17")
+					f.Trigger += " under all DISABLE_* flags"
+				}
 				c.Report(f)
 			}
 		}
